@@ -82,7 +82,7 @@ def c06_oracle(case, obs):
                 dead = (i, r)
     # --- liveness on the fair family ---
     plan = case.get("plan")
-    if plan:
+    if plan and "w" in plan:
         out.extend(liveness(case, obs, log, plan))
     return out
 
